@@ -70,9 +70,59 @@ def recursion_kind(s):
                 kinds.add("array-or-map" if c else "union")
             for t2, c2 in edges.get(node, ()):
                 stack.append((t2, c or c2))
+    if not kinds:
+        return None
+    # a recursive type whose values are finite with probability one and shallow with overwhelming probability: the mean
+    # number of records of type j generated directly inside one record of type i (a union branch is drawn uniformly, an
+    # array / a map always has ten children) forms a matrix M; when some power of M has all row sums <= 0.75^k the
+    # expected size of a value is finite and P(depth > d) falls like 0.75^d — a RecursionError there is not finding F6
+    rho = mean_offspring_bound(named)
+    if rho is not None and rho <= 0.75:
+        return "subcritical"
     if "array-or-map" in kinds:
         return "array-or-map"
-    return "union" if kinds else None
+    return "union"
+
+
+def mean_offspring_bound(named):
+    """an upper bound of the spectral radius of the mean-offspring matrix of the record types in `named`
+    (max row sum of M^32, 32nd root); None when there are no records"""
+    recs = sorted(n for n, d in named.items() if isinstance(d, dict) and d.get("type") in ("record", "error"))
+    if not recs:
+        return None
+    idx = {n: i for i, n in enumerate(recs)}
+    M = [[0.0] * len(recs) for _ in recs]
+
+    def add(n, w, row):
+        if isinstance(n, list):
+            for b in n:
+                add(b, w / float(len(n)), row)
+        elif isinstance(n, str):
+            if n in idx:
+                row[idx[n]] += w
+        elif isinstance(n, dict):
+            t = n.get("type")
+            if t in ("record", "error"):
+                if n.get("name") in idx:
+                    row[idx[n["name"]]] += w
+            elif t == "array":
+                add(n["items"], w * 10.0, row)
+            elif t == "map":
+                add(n["values"], w * 10.0, row)
+            elif isinstance(t, (dict, list)):
+                add(t, w, row)
+    for n in recs:
+        for f in named[n]["fields"]:
+            add(f["type"], 1.0, M[idx[n]])
+
+    def mul(A, B):
+        return [[sum(A[i][k] * B[k][j] for k in range(len(B))) for j in range(len(B))] for i in range(len(A))]
+    Pw = M
+    for _ in range(5):          # M^32
+        Pw = mul(Pw, Pw)
+        if max(sum(r) for r in Pw) > 1e30:
+            return float("inf")
+    return max(sum(r) for r in Pw) ** (1.0 / 32)
 
 
 class Timeout(Exception):
@@ -135,6 +185,24 @@ def run(tier, seed):
     directed += [err, {"type": "record", "name": "Resp", "fields": [{"name": "f", "type": err}, {"name": "again", "type": "ns.Failure"}]},
                  {"type": "array", "items": err}, {"type": "map", "values": err}, ["null", err],
                  {"type": "record", "name": "Resp2", "fields": [{"name": "fs", "type": {"type": "array", "items": err}}, {"name": "one", "type": ["ns.Failure", "string"]}]}]
+    # recursive types with further choice points per level (an optional payload, an enum tag, several optional texts, a
+    # three-branch union, mutual recursion, the "error" kind): every recursive union has a way out and is drawn uniformly, so
+    # values are finite with probability one and shallow
+    def node(name, extra, nxt=None, kind="record"):
+        return {"type": kind, "name": name, "fields": extra + [{"name": "next", "type": nxt or ["null", name]}]}
+    directed += [
+        node("ListP", [{"name": "value", "type": ["null", "int"]}]),
+        node("ListE", [{"name": "tag", "type": {"type": "enum", "name": "Tag3", "symbols": ["A", "B", "C"]}}]),
+        {"type": "record", "name": "RefFirst", "fields": [{"name": "next", "type": ["RefFirst", "null"]}, {"name": "value", "type": ["null", "int"]}]},
+        node("Frame", [{"name": "a", "type": ["null", "string"]}, {"name": "b", "type": ["null", "string"]}], ["null", "string", "Frame"]),
+        {"type": "record", "name": "geo.Tree", "fields": [{"name": "l", "type": ["null", "int", "string", "geo.Tree"]}, {"name": "r", "type": ["null", "int", "string", "Tree"]},
+                                                        {"name": "k", "type": {"type": "enum", "name": "geo.K", "symbols": ["X", "Y"]}}]},
+        {"type": "record", "name": "Dir", "fields": [{"name": "kind", "type": {"type": "enum", "name": "DK", "symbols": ["A", "B"]}},
+                                                    {"name": "link", "type": ["null", {"type": "record", "name": "Link", "fields": [
+                                                        {"name": "payload", "type": ["null", "bytes"]}, {"name": "target", "type": ["null", "Dir"]}]}]}]},
+        node("ns.Fail", [{"name": "detail", "type": ["null", "string"]}], ["null", "ns.Fail"], kind="error"),
+        node("ListP4", [{"name": "v1", "type": ["null", "int"]}, {"name": "v2", "type": ["null", "int"]}, {"name": "v3", "type": ["int", "null", "string"]}]),
+    ]
     for i in range(scale(tier, 500) + len(directed)):
         g = gen.Gen(seed * 20000003 + i, logical=(i % 3 == 0), bytes_defaults=False, max_depth=2 if i % 2 else 3)
         try:
@@ -211,6 +279,27 @@ def run(tier, seed):
             run.cov["evaluations"] += 1
         except Exception:
             pass
+        # the schema handed over is the object parse_schema returned; the same object then goes to the container writer
+        if isinstance(s, dict) and s.get("type") == "record" and rk in (None, "subcritical") and (i < len(directed) or i % 3 == 0):
+            try:
+                ps = parse_schema(copy.deepcopy(s))
+                random.seed(seed * 31 + i)
+                vals = with_timeout(lambda: list(generate_many(ps, 2)) + [generate_one(ps)])
+                if len(repr(vals)) < 200000:
+                    co = io.BytesIO()
+                    fastavro.writer(co, ps, vals)
+                    cb = list(fastavro.reader(io.BytesIO(co.getvalue())))
+                    run.cov["evaluations"] += 1
+                    run.tag("parsed-schema-object-reused")
+                    if len(cb) != 3:
+                        run.fail(dict(case, tags=tags + ["parsed-schema-object-reused"]), "values generated for a parsed schema object: the container file "
+                                 "written with that object holds another number of records", kind="oracle")
+            except Timeout:
+                pass
+            except Exception as e:  # noqa
+                run.fail(dict(case, error=repr(e)[:200], tags=tags + ["parsed-schema-object-reused"]),
+                         "values generated for a parsed schema object are not accepted by the container writer given the same object, or "
+                         "the file cannot be read back (%s)" % exc_class(e), kind="oracle")
     # ---- several generators alive at once (generate_many is lazy): schemas that define a type of the same name differently;
     # consumed alternately, each generator's values conform to ITS schema
     v1 = {"type": "record", "name": "app.Msg", "fields": [
